@@ -87,3 +87,27 @@ Proof. unfold lex_identifier. destruct (mem run table) eqn:E; [discriminate|]. i
 
 Theorem lex_identifier_refuses table run : mem run table = true -> lex_identifier table run = None.
 Proof. unfold lex_identifier. now intros ->. Qed.
+
+(* keyword(t) first asks is_reserved_in_force(t): with a table [k] selected by `begin_keywords, a word
+   of the latest table that [k] lacks is no keyword; without such a table every word passes *)
+Definition keyword_allowed (guard : option (list string)) (latest : list string) (t : string) : bool :=
+  match guard with
+  | None => true
+  | Some k => negb (mem t latest) || mem t k
+  end.
+
+(* a word reserved only in a later standard is refused by keyword() and returned by the identifier lexer *)
+Theorem later_word_is_identifier guard latest k t :
+  guard = Some k -> mem t latest = true -> mem t k = false ->
+  keyword_allowed guard latest t = false /\ lex_identifier k t = Some t.
+Proof.
+  intros -> Hl Hk. unfold keyword_allowed, lex_identifier. rewrite Hl, Hk. auto.
+Qed.
+
+(* the reserved words of the set in force (and words no table knows: `1step`, directive names) stay keywords *)
+Theorem reserved_word_stays_keyword guard latest t :
+  match guard with Some k => mem t k = true \/ mem t latest = false | None => True end ->
+  keyword_allowed guard latest t = true.
+Proof.
+  unfold keyword_allowed. destruct guard as [k|]; [|reflexivity]. intros [H|H]; rewrite H; [apply orb_true_r|reflexivity].
+Qed.
